@@ -423,8 +423,10 @@ static int tcp_receive(struct xcm_socket *__restrict s, void *__restrict buf,
 
     TP_RET_ERR_IF(ts->conn.bad, ts->conn.badness_reason);
 
-    if (try_finish_send(s) < 0 && errno != EAGAIN)
-	return errno == EPIPE ? 0 : -1;
+    /* EPIPE: the peer has closed; messages it sent before that may
+       still be waiting */
+    if (try_finish_send(s) < 0 && errno != EAGAIN && errno != EPIPE)
+	return -1;
 
     int rc = buffer_msg(s);
     if (rc <= 0)
